@@ -1426,3 +1426,202 @@ def float_bits_of(y):
     if y[0] == 'M':
         return [b for a, c in y[1] for b in float_bits_of(a) + float_bits_of(c)]
     return []
+
+
+# ---------------------------------------------------------------------------------------------
+# C16: tags and directives
+
+def pct(s, everything=False):
+    out = ''
+    for ch in s:
+        if everything or not (ch.isascii() and (ch.isalnum() or ch in "-._~")):
+            out += ''.join('%%%02X' % b for b in ch.encode('utf8'))
+        else:
+            out += ch
+    return out
+
+
+HANDLES = ['!', '!!', '!e!', '!m!', '!a-b!']
+PREFIXES = ['tag:example.com,2000:', '!local-', 'tag:yaml.org,2002:', 'x:y/', 'p%C3%A9:', '!']
+SUFFIXES = ['str', 'int', 'a', 'a-b_c', 'é', '€uro', '\U0001D11E', 'a b', 'a!b', 'x,y', 'q[r]', '%', 'A%B']
+
+
+def c16_doc(r, table, default_pp=True):
+    """one document body with tagged nodes; returns (text, expected tags in event order or None for error)"""
+    nodes = []
+    exp = []
+    err = False
+    for _ in range(r.randint(1, 3)):
+        k = r.below(8)
+        sfx = r.choice(SUFFIXES)
+        if k == 0:
+            sp, full = '!', '!'
+            if '!' in table and False:
+                pass
+        elif k == 1:
+            body = r.choice(['tag:yaml.org,2002:str', '!bar', 'x:y', 'tag:e,2000:' + pct(sfx, True)])
+            sp = '!<' + body + '>'
+            full = pct_decode(body)
+        elif k == 2:
+            sp = '!!' + pct(sfx)
+            full = table.get('!!', 'tag:yaml.org,2002:') + sfx
+        elif k == 3:
+            sp = '!' + pct(sfx)
+            full = table.get('!', '!') + sfx if True else None
+        else:
+            h = r.choice(HANDLES[2:])
+            sp = h + pct(sfx, everything=r.chance(1, 3))
+            if h in table:
+                full = table[h] + sfx
+            else:
+                full = None
+                err = True
+        nodes.append((sp, full))
+    shape = r.below(4)
+    if shape == 0:
+        text = '\n'.join(f'- {sp} v{i}' for i, (sp, _) in enumerate(nodes)) + '\n'
+        exp = [f for _, f in nodes]
+    elif shape == 1:
+        text = '\n'.join(f'k{i}: {sp} v' for i, (sp, _) in enumerate(nodes)) + '\n'
+        exp = [f for _, f in nodes]
+    elif shape == 2:
+        sp0, f0 = nodes[0]
+        text = f'{sp0}\n' + '\n'.join(f'- {sp} v' for sp, _ in nodes[1:]) + ('\n' if len(nodes) > 1 else '- x\n')
+        exp = [f for _, f in nodes]
+    else:
+        text = '[' + ', '.join(f'{sp} v' for sp, _ in nodes) + ']\n'
+        exp = [f for _, f in nodes]
+    return text, (None if err else exp)
+
+
+def pct_decode(s):
+    b = bytearray()
+    i = 0
+    while i < len(s):
+        if s[i] == '%' and i + 2 < len(s) + 0 and all(c in '0123456789abcdefABCDEF' for c in s[i + 1:i + 3]) and len(s[i + 1:i + 3]) == 2:
+            b.append(int(s[i + 1:i + 3], 16)); i += 3
+        else:
+            b += s[i].encode('utf8'); i += 1
+    return b.decode('utf8', 'replace')
+
+
+def c16_case(r, keep):
+    """a stream of 1-3 documents; returns (text, expected tag list or None when an error is expected, meta)"""
+    text = ''
+    exp = []
+    persistent = {}
+    error = False
+    ndocs = r.randint(1, 3)
+    kinds = []
+    for d in range(ndocs):
+        table = dict(persistent) if keep else {}
+        lines = []
+        nt = r.below(4)
+        declared = []
+        yaml_lines = r.choice([0, 0, 1, 1, 2]) if r.chance(1, 2) else 0
+        for i in range(nt):
+            h = r.choice(HANDLES)
+            if i > 0 and r.chance(1, 6):
+                h = declared[0]
+            p = r.choice(PREFIXES)
+            lines.append(f'%TAG {h} {p}')
+            if h in declared:
+                error = True
+                kinds.append('dup-handle')
+            declared.append(h)
+            table[h] = pct_decode(p)
+        for _ in range(yaml_lines):
+            lines.insert(r.below(len(lines) + 1), '%YAML 1.2')
+        if yaml_lines >= 2:
+            error = True
+            kinds.append('dup-yaml')
+        if r.chance(1, 8):
+            lines.insert(r.below(len(lines) + 1), '%FOO bar baz')
+        kinds.append(f'tags{nt}yaml{yaml_lines}')
+        body, e = c16_doc(r, table)
+        if lines or d > 0 or r.chance(1, 2):
+            head = '\n'.join(lines) + ('\n' if lines else '') + '---\n'
+        else:
+            head = ''
+        if d > 0 and (lines or r.chance(1, 2)):
+            head = '...\n' + head
+        text += head + body
+        if e is None:
+            error = True
+            kinds.append('undeclared')
+        else:
+            exp += e
+        if keep:
+            persistent = table
+        if error:
+            break
+    return text, (None if error else exp), kinds
+
+
+@prop('C16', ["the expectation comes from the generator's abstract data (handle -> prefix table per document, suffix before percent-encoding), independently of the parser",
+              "theorems registered: see Props/C16.lean"])
+def c16(tier, rng):
+    res = Result()
+    res.rule = "directive sets (0-3 %TAG over 5 handles x 6 prefixes, 0-2 %YAML, reserved directives) x tag spellings (!!, !name, !h!, !<verbatim>, lone !, percent-encoded suffixes incl. 2/3/4-byte UTF-8) on scalars and collections x 1-3 documents x keep_tags; non-trivial = at least one tagged node; distinct by (text, keep)"
+    res.corr_ops = ['evt (tags field)', 'par (parser model on the real tokens)']
+    r = rng.fork('c16')
+    cases = []
+    for _ in range(12000 if tier == 'quick' else 300000):
+        keep = r.chance(1, 2)
+        t, e, kinds = c16_case(r, keep)
+        cases.append((t, e, keep, kinds))
+    # percent-encoding of single code points, exhaustively over a stride of the code space
+    step = 97 if tier == 'quick' else 7
+    cps = [c for c in range(0x21, 0x110000, step) if not (0xD800 <= c <= 0xDFFF)] + [0x7f, 0x80, 0x7ff, 0x800, 0xffff, 0x10000, 0x10ffff, 0xe9, 0x20ac]
+    for c in cps:
+        ch = chr(c)
+        cases.append((f'--- !e{pct(ch, True)}z v\n', ['!e' + ch + 'z'], False, ['pct-suffix']))
+    reqs = []
+    for t, e, keep, _ in cases:
+        reqs += [f'evt str 128 {1 if keep else 0} {hx(t)}', f'tok str 128 {hx(t)}']
+    impl = run_impl(reqs)
+    mreqs = []
+    for n, (t, e, keep, _) in enumerate(cases):
+        mreqs += [reqs[2 * n], f'par {1 if keep else 0} {impl[2 * n + 1]}']
+    model = run_model(mreqs)
+    for n, (t, e, keep, kinds) in enumerate(cases):
+        res.evaluations += 1
+        a = impl[2 * n]
+        res.nt(t + str(keep))
+        for k in kinds:
+            res.count(k)
+        items, tail = split_line(a)
+        got = []
+        for it in items:
+            f = it.rpartition('@')[0].split(':')
+            tg_ = f[3] if f[0] == 'SC' else f[2] if f[0] in ('SQ', 'MP') else '-'
+            if tg_ != '-':
+                h, _, s = tg_.partition('!')
+                got.append(unhx(h) + unhx(s))
+        why = None
+        if 'PANIC' in a:
+            why = 'panic'
+        elif e is None:
+            if tail[0] != 'ERR':
+                why = 'an undeclared handle / repeated directive was accepted'
+        else:
+            if tail[0] == 'ERR':
+                why = f'rejected: {unhx(tail[2])}'
+            elif got != e:
+                why = f'tags {got} where {e} are denoted'
+        if why:
+            res.oracle_failures.append({'sig': c16_sig(t, e, kinds, why) or usig(t + str(keep)), 'what': why, 'reqs': [reqs[2 * n]], 'input': repr(t[:300]) + f' keep_tags={keep}'})
+        for j, what in ((0, 'evt'), (1, 'par')):
+            b = model[2 * n + j]
+            if b != a and 'PANIC' not in a:
+                diff(res, mreqs[2 * n + j], a, b, what)
+        if n % 3001 == 0:
+            res.samples.append({'text': t[:150], 'keep_tags': keep, 'expected': e})
+    return res
+
+
+def c16_sig(t, e, kinds, why):
+    if 'pct-suffix' in kinds:
+        return 'C16:uri-escape-multibyte'
+    ntag = sum(1 for l in t.split('\n') if l.startswith('%TAG'))
+    return None
